@@ -204,12 +204,31 @@ func (r *runner) prepare(sub string, idx []int) string {
 	write(filepath.Join(dir, "zz_common.go"), CommonFile("main")+"\n//go:generate gombok\n")
 	for _, i := range idx {
 		write(filepath.Join(dir, fmt.Sprintf("s_%03d.go", i)), r.p.Shapes[i].DeclFile("main", structName(i)))
+		if extra := r.p.Shapes[i].ExtraDeclFile("main", structName(i)); extra != "" {
+			write(filepath.Join(dir, fmt.Sprintf("s_%03d_b.go", i)), extra)
+		}
 	}
 	return dir
 }
 
 // runGombok runs gombok the way go generate does: cwd = package directory, GOPACKAGE/GOFILE/GOLINE set.
 func (r *runner) runGombok(dir string) (out string, rc int, timedOut bool) {
+	// go/packages reports "internal error: package X without types was imported from Y" when the
+	// build cache is disturbed under it (seen while another process cleaned the cache): that is the
+	// environment, not gombok refusing the declaration - retry, then give up as an internal error
+	for attempt := 0; ; attempt++ {
+		out, rc, timedOut = r.runGombokOnce(dir)
+		if rc == 0 || timedOut || !strings.Contains(out, "without types was imported from") {
+			return
+		}
+		if attempt == 3 {
+			internalf("gombok could not load the scratch package (go/packages, disturbed build cache?):\n%s", trunc(out, 2000))
+		}
+		time.Sleep(2 * time.Second)
+	}
+}
+
+func (r *runner) runGombokOnce(dir string) (out string, rc int, timedOut bool) {
 	r.res.GombokRuns++
 	return run(dir, []string{"GOPACKAGE=main", "GOFILE=zz_common.go", "GOLINE=25"}, 5*time.Minute, r.gombok)
 }
@@ -434,7 +453,11 @@ func RunPackage(p *Package) *PkgResult {
 	byID := map[string]*StructResult{}
 	var live []int
 	for i, s := range p.Shapes {
-		results[i] = StructResult{ID: s.ID, Status: "ok", Decl: s.StructDecl("S")}
+		decl := s.StructDecl("S")
+		if s.ExtraFile != "" {
+			decl += "\n// second file of the same package:\n" + strings.ReplaceAll(s.ExtraFile, "%N", "S")
+		}
+		results[i] = StructResult{ID: s.ID, Status: "ok", Decl: decl}
 		byID[s.ID] = &results[i]
 		live = append(live, i)
 	}
@@ -502,7 +525,7 @@ func RunPackage(p *Package) *PkgResult {
 			continue
 		}
 		lawOut = out
-		if len(suspects) == 0 {
+		if len(suspects) == 0 && len(p.Shapes) > 1 {
 			// go vet is informational only: a vet complaint is not a compile failure
 			vout, vrc, _ := run(a.dir, nil, 10*time.Minute, "go", "vet", ".")
 			if vrc != 0 {
